@@ -76,6 +76,10 @@ pub struct ConfigParts {
     /// to the working directory; `{CFGREL}` is put in front). A `.luaurc` alias of the same
     /// name wins over them.
     pub bundle_luau_aliases: Vec<(String, String)>,
+    /// the name of the table the bundled modules are stored in (None = default)
+    pub bundle_modules_identifier: Option<String>,
+    /// `use_luau_configuration: false` on the require mode: `.luaurc` files are ignored
+    pub bundle_no_luaurc: bool,
     pub apply_to_files: Vec<String>,
     pub skip_files: Vec<String>,
     /// Some(path relative to the configuration file): `convert_require` from path requires
@@ -129,9 +133,14 @@ impl ConfigParts {
                         .collect::<Vec<_>>()
                         .join(",")
                 )
+            } else if self.bundle_no_luaurc {
+                format!("\"require_mode\":{{\"name\":\"{}\",\"use_luau_configuration\":false}}", mode)
             } else {
                 format!("\"require_mode\":\"{}\"", mode)
             };
+            if let Some(identifier) = &self.bundle_modules_identifier {
+                bundle.push_str(&format!(",\"modules_identifier\":\"{}\"", identifier));
+            }
             if !self.bundle_excludes.is_empty() {
                 bundle.push_str(&format!(
                     ",\"excludes\":[{}]",
@@ -191,6 +200,8 @@ pub fn gen_config_parts(rng: &mut Rng, bundle: Option<&str>) -> ConfigParts {
         bundle_excludes: Vec::new(),
         bundle_sources: false,
         bundle_luau_aliases: Vec::new(),
+        bundle_modules_identifier: None,
+        bundle_no_luaurc: false,
         apply_to_files: Vec::new(),
         skip_files: Vec::new(),
         convert_sourcemap: None,
